@@ -193,7 +193,7 @@ def _make_split(
     iname = data.default_interaction_class()
     if test_only:
         train_build.clear_relationships(iname)
-    else:
+    elif len(test) > 0:
         test_tbl = test.to_df()[["user_id", "item_id"]]
         train_build.filter_interactions(iname, remove=test_tbl)
 
